@@ -235,14 +235,15 @@ theorem flatten_group {w : Nat} (ls : List (List Nat)) (hl : ∀ l ∈ ls, l.len
       exact ih (fun l hl' => hl l (List.mem_cons_of_mem _ hl')) k (by simpa using hj)
 
 /-- **Numeric sequences.**  In every successful assembly a `bytes/shorts/ints/longs/longlongs v1 … vk`
-    item contributes, at its own byte offset, exactly k·w bytes (w = 1/2/4/4/8 by `data_width_table`):
+    item of `lay.aligned` - the list the pipeline holds after resolve_aligns, `lay` being the layout the
+    inputs determine (`C03.Frame`) - contributes, at its own byte offset, exactly k·w bytes (w = 1/2/4/4/8 by `data_width_table`):
     the operands are integer literals `vs`, each fits (signed minimum … unsigned maximum of the width),
     and the j-th group of w bytes is the little-endian two's-complement digits of `vs[j]`. -/
 theorem assemble_sequence_value (H : Hooks) (compress : Bool) (items : List Item) (r : AsmResult)
     (h : assembleItems H compress items [] [] = .ok r) :
-    ∃ items7 out : List Item, Expands items items7 ∧ r.bytes = blobBytes out ∧
-      ∀ (i : Nat) (hi : i < items7.length) line name vals w,
-        items7[i] = .sequence line name vals → sequenceElemSize name = some w →
+    ∃ lay out, Frame H compress items r lay out ∧
+      ∀ (i : Nat) (hi : i < lay.aligned.length) line name vals w,
+        lay.aligned[i] = .sequence line name vals → sequenceElemSize name = some w →
         ∃ vs : List Int, vals.map (fun t => pyInt0 t.toList) = vs.map some ∧
           (∀ v ∈ vs, -(2 ^ (8 * w - 1) : Int) ≤ v ∧ v < (2 ^ (8 * w) : Int)) ∧
           (r.bytes.drop (blobBytes (out.take i)).length).take (w * vals.length) = (vs.map (twosLE w)).flatten ∧
@@ -250,8 +251,10 @@ theorem assemble_sequence_value (H : Hooks) (compress : Bool) (items : List Item
             ((r.bytes.drop ((blobBytes (out.take i)).length + w * j)).take w) = twosLE w vs[j] ∧
             (fromLE ((r.bytes.drop ((blobBytes (out.take i)).length + w * j)).take w) : Int)
               = vs[j] % ((2 ^ (8 * w) : Nat) : Int) := by
-  obtain ⟨items7, out, hexp, hland, hbytes⟩ := assemble_land H compress items r h
-  refine ⟨items7, out, hexp, hbytes, ?_⟩
+  obtain ⟨lay, out, hF⟩ := assemble_land H compress items r h
+  have hland := hF.land
+  have hbytes := hF.bytes
+  refine ⟨lay, out, hF, ?_⟩
   intro i hi line name vals w hit hw
   obtain ⟨it', line', d, _, hbody, hfin, hslice⟩ := hland.at i hi
   rw [hit] at hbody
@@ -341,15 +344,16 @@ theorem step_pack {H : Hooks} {constants L : Dict} {p : Int} {line line' : Line}
       refine ⟨v, big, signed, n, hv, hs, ?_, packInt_digits ho.symm⟩
       exact (packInt_accept_iff big signed n v).mp ⟨bs', ho.symm⟩
 
-/-- **pack.**  In every successful assembly a `pack <fmt>, expr` item contributes, at its own byte
+/-- **pack.**  In every successful assembly a `pack <fmt>, expr` item of `lay.aligned` (the list the
+    pipeline holds after resolve_aligns, `C03.Frame`) contributes, at its own byte
     offset, the `struct` bytes of the value of `expr` evaluated AT THAT OFFSET against the RETURNED
     tables: `fmt` is one of the twenty documented formats (`data_width_table`), the value fits the
     format's signed / unsigned range, and the n bytes are its two's-complement digits, little-endian for
     `<`, big-endian (the reverse) for `>`. -/
 theorem assemble_pack_value (H : Hooks) (compress : Bool) (items : List Item) (r : AsmResult)
     (h : assembleItems H compress items [] [] = .ok r) :
-    ∃ items7 out : List Item, Expands items items7 ∧ r.bytes = blobBytes out ∧
-      ∀ (i : Nat) (hi : i < items7.length) line fmt imm, items7[i] = .pack line fmt imm →
+    ∃ lay out, Frame H compress items r lay out ∧
+      ∀ (i : Nat) (hi : i < lay.aligned.length) line fmt imm, lay.aligned[i] = .pack line fmt imm →
         ∃ v big signed n,
           Imm.eval H (chainGet r.constants r.labels) line imm ((blobBytes (out.take i)).length : Int) = .ok v ∧
           fmtSpec fmt = some (big, signed, n) ∧ fits signed n v ∧
@@ -358,8 +362,10 @@ theorem assemble_pack_value (H : Hooks) (compress : Bool) (items : List Item) (r
           (fromLE (if big then ((r.bytes.drop (blobBytes (out.take i)).length).take n).reverse
                    else (r.bytes.drop (blobBytes (out.take i)).length).take n) : Int)
             = v % ((2 ^ (8 * n) : Nat) : Int) := by
-  obtain ⟨items7, out, hexp, hland, hbytes⟩ := assemble_land H compress items r h
-  refine ⟨items7, out, hexp, hbytes, ?_⟩
+  obtain ⟨lay, out, hF⟩ := assemble_land H compress items r h
+  have hland := hF.land
+  have hbytes := hF.bytes
+  refine ⟨lay, out, hF, ?_⟩
   intro i hi line fmt imm hit
   obtain ⟨it', line', d, _, hbody, hfin, hslice⟩ := hland.at i hi
   rw [hit] at hbody
@@ -428,30 +434,32 @@ theorem dataLit_same {H : Hooks} {it : Item} (hd : DataLit H it) {constants cons
   simp only [Item.blob.injEq] at this
   exact this.2
 
-/-- **Data is unchanged by compression.**  Assemble the same items without and with `-c`: wherever a
-    data item with context-free operands (string, include_bytes, numeric sequence, blob, pack / db…dd
-    of a literal expression) stands in the two expanded item lists, it contributes THE SAME bytes `d`
-    at its offset in the one output and at its offset in the other. -/
+/-- **Data is unchanged by compression.**  Assemble the same items without and with `-c`; let `lay0`,
+    `lay1` be the two layouts the inputs determine.  Wherever a data item with context-free operands
+    (string, include_bytes, numeric sequence, blob, pack / db…dd of a literal expression) stands in the
+    two lists held after resolve_aligns, it contributes THE SAME bytes `d` - as many as the item's size
+    - at its offset in the one output and at its offset in the other. -/
 theorem data_unchanged_by_compression (H : Hooks) (items : List Item) (r0 r1 : AsmResult)
     (h0 : assembleItems H false items [] [] = .ok r0) (h1 : assembleItems H true items [] [] = .ok r1) :
-    ∃ items0 out0 items1 out1 : List Item,
-      Expands items items0 ∧ r0.bytes = blobBytes out0 ∧ Expands items items1 ∧ r1.bytes = blobBytes out1 ∧
-      ∀ (i j : Nat) (hi : i < items0.length) (hj : j < items1.length) (it : Item),
-        items0[i] = it → items1[j] = it → DataLit H it →
-        ∃ d : List Nat,
+    ∃ lay0 out0 lay1 out1,
+      Frame H false items r0 lay0 out0 ∧ Frame H true items r1 lay1 out1 ∧
+      ∀ (i j : Nat) (hi : i < lay0.aligned.length) (hj : j < lay1.aligned.length) (it : Item),
+        lay0.aligned[i] = it → lay1.aligned[j] = it → DataLit H it →
+        ∃ d : List Nat, (d.length : Int) = it.sizeD ∧
           (r0.bytes.drop (blobBytes (out0.take i)).length).take d.length = d ∧
           (r1.bytes.drop (blobBytes (out1.take j)).length).take d.length = d := by
-  obtain ⟨items0, out0, e0, l0, b0⟩ := assemble_land H false items r0 h0
-  obtain ⟨items1, out1, e1, l1, b1⟩ := assemble_land H true items r1 h1
-  refine ⟨items0, out0, items1, out1, e0, b0, e1, b1, ?_⟩
+  obtain ⟨lay0, out0, F0⟩ := assemble_land H false items r0 h0
+  obtain ⟨lay1, out1, F1⟩ := assemble_land H true items r1 h1
+  refine ⟨lay0, out0, lay1, out1, F0, F1, ?_⟩
   intro i j hi hj it hit0 hit1 hd
-  obtain ⟨a, line, d, _, hb, hf, hs⟩ := l0.at i hi
-  obtain ⟨a', line', d', _, hb', hf', hs'⟩ := l1.at j hj
-  rw [hit0] at hb
+  obtain ⟨a, line, d, ho, hb, hf, hs⟩ := F0.land.at i hi
+  obtain ⟨a', line', d', _, hb', hf', hs'⟩ := F1.land.at j hj
+  have hsz := F0.land.size_at i hi line d ho
+  rw [hit0] at hb hsz
   rw [hit1] at hb'
   have := dataLit_same hd hb hf hb' hf'
   subst this
-  exact ⟨d, by rw [b0]; exact hs, by rw [b1]; exact hs'⟩
+  exact ⟨d, hsz, by rw [F0.bytes]; exact hs, by rw [F1.bytes]; exact hs'⟩
 
 /-! ## non-vacuity -/
 
@@ -476,5 +484,34 @@ example : bytesOf (assembleItems (textHooks ⟨[], []⟩) false exData [] []) =
     [0x13, 0, 0, 0, 1, 0, 254, 255, 255, 255, 255, 254, 0x78, 0x56, 0x34, 0x12] := by decide +kernel
 example : bytesOf (assembleItems (textHooks ⟨[], []⟩) true exData [] []) =
     [1, 0, 1, 0, 254, 255, 255, 255, 255, 254, 0x78, 0x56, 0x34, 0x12] := by decide +kernel
+
+/-- a little program with a label, a pseudo-instruction, an alignment and the data items -/
+def exData2 : List Item :=
+  [.label ⟨"m.asm", 1, "go:"⟩ "go",
+   .pseudo ⟨"m.asm", 2, "nop"⟩ "nop" [],
+   .shorthandPack ⟨"m.asm", 3, "db 1"⟩ "db" (.arith "1"),
+   .align ⟨"m.asm", 4, "align 4"⟩ 4,
+   .sequence ⟨"m.asm", 5, "shorts 1 -2 65535"⟩ "shorts" ["1", "-2", "65535"],
+   .pack ⟨"m.asm", 6, "pack >h, -2"⟩ ">h" (.arith "-2"),
+   .pack ⟨"m.asm", 7, "pack <I, go"⟩ "<I" (.arith "go"),
+   .string ⟨"m.asm", 8, "string hi"⟩ "hi",
+   .pseudo ⟨"m.asm", 9, "ret"⟩ "ret" []]
+
+/-- the hypotheses of `assemble_sequence_value`, `assemble_pack_value` and
+    `data_unchanged_by_compression` have instances: in both modes the layout computed for `exData2` holds
+    the `shorts` item at index 3, the two `pack` items at 4 and 5 and the string at 6 (the same items in
+    both modes - the sequence, `pack >h, -2` and the string are `DataLit`), and the assembly succeeds -/
+example : ∀ c : Bool,
+    (BB.Props.C04.layoutOf (textHooks ⟨[], []⟩) c exData2).toOption.map
+      (fun l => (l.aligned[3]?, l.aligned[4]?, l.aligned[5]?, l.aligned[6]?)) = some
+      (some (.sequence ⟨"m.asm", 5, "shorts 1 -2 65535"⟩ "shorts" ["1", "-2", "65535"]),
+       some (.pack ⟨"m.asm", 6, "pack >h, -2"⟩ ">h" (.arith "-2")),
+       some (.pack ⟨"m.asm", 7, "pack <I, go"⟩ "<I" (.arith "go")),
+       some (.string ⟨"m.asm", 8, "string hi"⟩ "hi")) ∧
+    (bytesOf (assembleItems (textHooks ⟨[], []⟩) c exData2 [] [])).length = (if c then 20 else 26) := by
+  decide +kernel
+
+example : DataLit (textHooks ⟨[], []⟩) (.sequence ⟨"m.asm", 5, "shorts 1 -2 65535"⟩ "shorts" ["1", "-2", "65535"]) :=
+  trivial
 
 end BB.Props.C10
